@@ -16,7 +16,7 @@ LEVEL = 'fault_enumeration'
 BOOT = {'kernel': False}
 TIERS = {
     'quick': {'runs': 160, 'budget_s': 130, 'shrink_runs': 60, 'opts': {'wall_timeout': 200, 'max_boundaries': 40}},
-    'thorough': {'runs': 6000, 'budget_s': 1500, 'shrink_runs': 120, 'opts': {'wall_timeout': 400, 'max_boundaries': 400}},
+    'thorough': {'runs': 6000, 'budget_s': 1500, 'shrink_runs': 120, 'opts': {'wall_timeout': 900, 'max_boundaries': 400, 'max_boundaries_slow': 80}},
 }
 RULE = ('each evaluation = one writer (Status.update, OutputAgent.updateLogs, StatusMonitor.try_generate_status_details, '
         'store_unreplicated_flowir_to_disk incl. after a DoWhile iteration, manifest writer of _generate_instance_files) x one '
@@ -509,6 +509,9 @@ def run_case(case, schedule, opts):
         count('probe.boundaries_in_last_update', nb)
         # ---- enumeration of (boundary, kind) on the last update
         maxb = int(opts.get('max_boundaries', 40))
+        if writer == 'instance-loop':
+            # every variant of this writer rebuilds the experiment and replays the earlier iterations (~0.5 s each)
+            maxb = min(maxb, int(opts.get('max_boundaries_slow', 40)))
         ks = list(range(1, nb + 1))
         sampled = False
         if nb > maxb:
